@@ -122,6 +122,9 @@ var mu sync.Mutex
 var displayLog *[]interface{}
 var installed bool
 
+// OnDisplay - when non-nil, called at every 显示 with the first argument's text (used to put display markers into an event log in order)
+var OnDisplay func(first string)
+
 // InstallDisplay replaces the predefined 显示 with a recorder (exported map entry, no hook).
 func InstallDisplay() {
 	if installed {
@@ -142,6 +145,11 @@ func InstallDisplay() {
 		}
 		if displayLog != nil {
 			*displayLog = append(*displayLog, args)
+		}
+		if OnDisplay != nil && len(params) > 0 {
+			if st, ok := params[0].(*value.String); ok {
+				OnDisplay(st.GetValue())
+			}
 		}
 		return value.NewNull(), nil
 	})
